@@ -174,6 +174,24 @@ Definition drain_all (s : st) : st * fired :=
   (mkS (interval s) (map (fun _ => []) (slots s)) (items s) (timers s) (ticked s) (next_id s),
    flat_map (drain_task (items s)) (concat (slots s))).
 
+(* ---- threading.TaskRunner as drainAll uses it (lib/threading/taskrunner.go), and RunSafe ----
+   Schedule takes one of `limit` slots (blocking the run loop while none is free) and starts a goroutine
+   whose deferred rescue.Recover gives the slot back when the task ends -- whether it returned or panicked.
+   The number of slots in use is all the run loop can observe of its callbacks. *)
+Inductive rev := RStart | RFinish (panicked : bool).
+
+Definition rstep (limit : nat) (inflight : option nat) (e : rev) : option nat :=
+  match inflight with
+  | None => None
+  | Some n =>
+      match e with
+      | RStart => if n <? limit then Some (S n) else None        (* would block *)
+      | RFinish _ => match n with O => None | S m => Some m end
+      end
+  end.
+
+Definition rrun (limit : nat) (tr : list rev) : option nat := fold_left (rstep limit) tr (Some 0).
+
 (* ---- the run loop's handlers (l.168-186) ---- *)
 Inductive op := OSet (k v : nat) (d : Z) | OMove (k : nat) (d : Z) | ORemove (k : nat) | OTick | ODrain.
 
